@@ -88,39 +88,87 @@ fn snapshot_files(root: &Path) -> Listing {
     v
 }
 
+/// Minimal independent tar reader (ustar / GNU headers as written by git and the `tar` crate for short names):
+/// returns files + symlinks and the directory names. Header checksums are verified.
+fn parse_tar(bytes: &[u8]) -> Result<(Listing, Vec<String>), String> {
+    fn cstr(b: &[u8]) -> String {
+        String::from_utf8_lossy(&b[..b.iter().position(|&c| c == 0).unwrap_or(b.len())]).to_string()
+    }
+    fn octal(b: &[u8]) -> Result<u64, String> {
+        let t = cstr(b);
+        let t = t.trim_matches(|c| c == ' ');
+        if t.is_empty() {
+            return Ok(0);
+        }
+        u64::from_str_radix(t, 8).map_err(|e| format!("bad octal field {t:?}: {e}"))
+    }
+    let (mut files, mut dirs): (Listing, Vec<String>) = (Vec::new(), Vec::new());
+    let mut pos = 0;
+    let mut terminated = false;
+    while pos + 512 <= bytes.len() {
+        let h = &bytes[pos..pos + 512];
+        if h.iter().all(|&b| b == 0) {
+            terminated = true;
+            break;
+        }
+        let want_sum = octal(&h[148..156])?;
+        let sum: u64 = h.iter().enumerate().map(|(i, &b)| if (148..156).contains(&i) { 32u64 } else { u64::from(b) }).sum();
+        if sum != want_sum {
+            return Err(format!("header checksum {want_sum} != computed {sum} at offset {pos}"));
+        }
+        let mut name = cstr(&h[0..100]);
+        if &h[257..263] == b"ustar\0" {
+            let prefix = cstr(&h[345..500]);
+            if !prefix.is_empty() {
+                name = format!("{prefix}/{name}");
+            }
+        }
+        let mode = octal(&h[100..108])?;
+        let size = octal(&h[124..136])? as usize;
+        let data_start = pos + 512;
+        if data_start + size > bytes.len() {
+            return Err(format!("entry {name} announces {size} bytes but the archive ends"));
+        }
+        let data = &bytes[data_start..data_start + size];
+        match h[156] {
+            b'0' | 0 => files.push((name, if mode & 0o100 != 0 { "exe" } else { "file" }, data.to_vec())),
+            b'2' => {
+                if size != 0 {
+                    return Err(format!("symlink {name} with {size} bytes of data"));
+                }
+                files.push((name, "link", cstr(&h[157..257]).into_bytes()))
+            }
+            b'5' => dirs.push(name.trim_end_matches('/').to_string()),
+            b'g' | b'x' => {}
+            other => return Err(format!("unexpected entry type {:?} for {name}", other as char)),
+        }
+        pos = data_start + size.div_ceil(512) * 512;
+    }
+    if !terminated {
+        return Err("no end-of-archive block".into());
+    }
+    files.sort();
+    Ok((files, dirs))
+}
+
 fn brief(l: &Listing) -> String {
     l.iter().map(|(p, k, c)| format!("{p}:{k}:{}B", c.len())).collect::<Vec<_>>().join(", ")
 }
-
-const ZIP_LIST: &str = r#"
-import sys, json, zipfile
-z = zipfile.ZipFile(sys.argv[1])
-out = []
-for i in z.infolist():
-    out.append([i.filename, i.external_attr >> 16, i.file_size])
-    if not i.filename.endswith('/'):
-        import os
-        dst = os.path.join(sys.argv[2], i.filename)
-        os.makedirs(os.path.dirname(dst), exist_ok=True)
-        open(dst, 'wb').write(z.read(i))
-if z.testzip() is not None:
-    sys.exit(3)
-print(json.dumps(out))
-"#;
 
 pub fn run(run: &'static Run) {
     let quick = run.quick();
     let kinds = kind_table(quick);
     let kind_names: Vec<&str> = kinds.iter().map(|k| k.0).collect();
     run.rule(format!(
-        "trees = every assignment of (absent | one of kinds {kind_names:?}) to the path slots {SLOTS:?} with at most {} entries; \
-         file sizes around the stream buffer (65535 bytes); x additional entry in {{none, file, exe, link, dir}} for trees with <=1 entry, {{none, file}} otherwise. Per case: (1) stream entries \
-         (path, mode, id, content) == blobs/executables/symlinks of the tree + the additional entry, each once; (2) tar written by gix-archive, \
-         extracted with tar(1): files == extraction of `git archive --format=tar` + the additional entry; (3) zip written by gix-archive, read with \
-         python3 zipfile: names, unix modes, contents == the same listing. non-trivial = the tree has at least one streamed entry.",
+        "trees = every assignment of (absent | one of kinds {kind_names:?}) to the path slots {SLOTS:?} with fewer than {} entries, \
+         plus all trees with exactly that many entries over the kinds empty/buf+1/exe/link/sub; \
+         file sizes around the stream buffer (65535 bytes); x additional entry in {{none, file, exe, link, dir}} for trees with <=1 entry, {{none, file}} otherwise (quick: {{file}} only). Per case: (1) stream entries \
+         (path, mode, id, content) == blobs/executables/symlinks of the tree + the additional entry, each once; (2) tar written by gix-archive == `git archive --format=tar` + the additional entry, both read by an independent header reader \
+         (checksums verified), and for trees with <=1 entry additionally extracted with tar(1); (3) zip written by gix-archive, read with \
+         unzip(1): names, unix modes (symlink / executable bit), contents == the same listing. non-trivial = the tree has at least one streamed entry.",
         if quick { 2 } else { 3 }
     ));
-    run.assume("git archive, GNU tar and python3 zipfile are trusted; only files and symlinks are compared (git archive adds an empty directory per gitlink, gitoxide documents that it streams none); permissions are compared by the executable bit only (git applies tar.umask)");
+    run.assume("git archive, GNU tar and Info-ZIP unzip are trusted; only files and symlinks are compared (git archive adds an empty directory per gitlink, gitoxide documents that it streams none); permissions are compared by the executable bit only (git applies tar.umask)");
     run.assume("no worktree filters / export-ignore attributes are configured (identity pipeline); tree_prefix is not varied");
     run.budget_secs(run.pick(35.0, 560.0));
 
@@ -146,13 +194,15 @@ pub fn run(run: &'static Run) {
         };
         content.insert(name.to_string(), (k, bytes.clone()));
     }
+    // kinds allowed per tree size: everything for small trees, a core set for the largest size of the tier
+    let core: Vec<&str> = vec!["empty", "buf+1", "exe", "link", "sub"];
     let max_entries = if quick { 2 } else { 3 };
     let mut maps: Vec<Map> = Vec::new();
     let mut alpha: Vec<Option<&str>> = vec![None];
     alpha.extend(kind_names.iter().map(|k| Some(*k)));
     vkit::enumerate::seqs(&alpha, SLOTS.len(), SLOTS.len(), |assign| {
         let m: Map = SLOTS.iter().zip(assign).filter_map(|(p, k)| k.map(|k| (p.to_string(), k.to_string()))).collect();
-        if m.len() <= max_entries {
+        if m.len() < max_entries || (m.len() == max_entries && m.values().all(|k| core.contains(&k.as_str()))) {
             maps.push(m);
         }
     });
@@ -168,6 +218,12 @@ pub fn run(run: &'static Run) {
             .unwrap_or_else(|e| vkit::machinery!("gix-odb cannot open fixture: {e}")),
     );
 
+    let stage_us: [AtomicU64; 6] = Default::default(); // stream, tar write+extract, git archive+extract, snapshots, zip write, unzip+snapshot
+    let lap = |slot: usize, t: &mut std::time::Instant| {
+        stage_us[slot].fetch_add(t.elapsed().as_micros() as u64, Ordering::Relaxed);
+        *t = std::time::Instant::now();
+    };
+    let git_listings: std::sync::Mutex<HashMap<ObjectId, Listing>> = Default::default();
     let big_streamed = AtomicU64::new(0);
     let with_sub = AtomicU64::new(0);
     run.sub_with(
@@ -175,8 +231,14 @@ pub fn run(run: &'static Run) {
         Opts::default().chunk(64).watchdog(600.0),
         |emit| {
             for m in &maps {
-                // the additional entries are independent of the tree: all of them for trees with <=1 entry, none|file otherwise
-                let extras: &[&str] = if m.len() <= 1 { &["none", "file", "exe", "link", "dir"] } else { &["none", "file"] };
+                // the additional entries are independent of the tree: all of them for trees with <=1 entry, none|file otherwise (quick: file only)
+                let extras: &[&str] = if m.len() <= 1 {
+                    &["none", "file", "exe", "link", "dir"]
+                } else if quick {
+                    &["file"]
+                } else {
+                    &["none", "file"]
+                };
                 for e in extras {
                     emit(Case { tree: m.clone(), extra: e.to_string() });
                 }
@@ -199,6 +261,7 @@ pub fn run(run: &'static Run) {
             expected.sort();
 
             // (1) the stream itself
+            let mut t0 = std::time::Instant::now();
             let mut stream = new_stream(&odb, tree_id, &c.extra);
             let mut seen: Listing = Vec::new();
             loop {
@@ -237,6 +300,7 @@ pub fn run(run: &'static Run) {
                 return bad("stream-entries", format!("stream yielded [{}], expected [{}]", brief(&seen), brief(&expected)));
             }
 
+            lap(0, &mut t0);
             // (2) tar vs git archive
             let scratch = vkit::scratch::Dir::new("c55case");
             let mut tar = Vec::new();
@@ -249,41 +313,57 @@ pub fn run(run: &'static Run) {
             ) {
                 return bad("tar-error", e);
             }
-            let untar = |bytes: &[u8], to: &Path| -> Result<(), String> {
-                std::fs::create_dir_all(to).map_err(|e| e.to_string())?;
+            // both archives are read by the same independent ustar/GNU header reader (checksums verified) ...
+            let (got, got_dirs) = match parse_tar(&tar) {
+                Ok(l) => l,
+                Err(e) => return bad("tar-unreadable", format!("tar archive does not parse: {e}")),
+            };
+            // ... and tar(1) itself must accept ours and produce the same files (trees with <= 1 entry, every extra)
+            if c.tree.len() <= 1 {
+                let ours_dir = scratch.join("ours");
+                std::fs::create_dir_all(&ours_dir).unwrap_or_else(|e| vkit::machinery!("mkdir: {e}"));
                 let mut cmd = std::process::Command::new("tar");
-                cmd.arg("-xf").arg("-").arg("-C").arg(to);
-                let o = git::run_cmd(cmd, Some(bytes));
-                if o.ok {
-                    Ok(())
-                } else {
-                    Err(o.err_text())
+                cmd.arg("-xf").arg("-").arg("-C").arg(&ours_dir);
+                let o = git::run_cmd(cmd, Some(&tar));
+                if !o.ok {
+                    return bad("tar-unreadable", format!("tar(1) rejects the archive: {}", o.err_text()));
+                }
+                let extracted = snapshot_files(&ours_dir);
+                if extracted != got {
+                    return bad("tar-content", format!("tar(1) extracted [{}], the headers describe [{}]", brief(&extracted), brief(&got)));
+                }
+                if c.extra == "dir" && !ours_dir.join("extra-dir").is_dir() {
+                    return bad("tar-content", "additional directory entry is missing after extraction");
+                }
+            }
+            lap(1, &mut t0);
+            // git archive's answer depends on the tree only: computed once per tree
+            let cached = git_listings.lock().unwrap().get(&tree_id).cloned();
+            let git_listing = match cached {
+                Some(l) => l,
+                None => {
+                    let git_tar = git::git(&dir, &["archive", "--format=tar", &tree_id.to_string()]);
+                    let l = parse_tar(&git_tar).unwrap_or_else(|e| vkit::machinery!("cannot parse git archive output: {e}")).0;
+                    git_listings.lock().unwrap().insert(tree_id, l.clone());
+                    l
                 }
             };
-            let ours_dir = scratch.join("ours");
-            if let Err(e) = untar(&tar, &ours_dir) {
-                return bad("tar-unreadable", format!("tar(1) rejects the archive: {e}"));
-            }
-            let git_tar = git::git(&dir, &["archive", "--format=tar", &tree_id.to_string()]);
-            let git_dir = scratch.join("git");
-            if let Err(e) = untar(&git_tar, &git_dir) {
-                vkit::machinery!("cannot extract git archive output: {e}");
-            }
-            let mut want = snapshot_files(&git_dir);
+            lap(2, &mut t0);
+            let mut want = git_listing;
             want.extend(extra.clone().filter(|e| e.1 != "dir"));
             want.sort();
-            let got = snapshot_files(&ours_dir);
             if got != want {
-                return bad("tar-content", format!("extracted [{}], git archive (+extra) gives [{}]", brief(&got), brief(&want)));
+                return bad("tar-content", format!("tar holds [{}], git archive (+extra) gives [{}]", brief(&got), brief(&want)));
             }
             let want_listing: Listing = expected.iter().filter(|e| e.1 != "dir").cloned().collect();
             if want != want_listing {
-                vkit::machinery!("git archive extraction [{}] differs from the tree listing [{}]", brief(&want), brief(&want_listing));
+                vkit::machinery!("git archive [{}] differs from the tree listing [{}]", brief(&want), brief(&want_listing));
             }
-            if c.extra == "dir" && !ours_dir.join("extra-dir").is_dir() {
-                return bad("tar-content", "additional directory entry is missing after extraction");
+            if c.extra == "dir" && !got_dirs.iter().any(|d| d == "extra-dir") {
+                return bad("tar-content", "additional directory entry is missing in the tar");
             }
 
+            lap(3, &mut t0);
             // (3) zip
             let zip_path = scratch.join("ours.zip");
             let mut stream = new_stream(&odb, tree_id, &c.extra);
@@ -302,41 +382,26 @@ pub fn run(run: &'static Run) {
                     return bad("zip-error", e);
                 }
             }
+            lap(4, &mut t0);
             let zip_dir = scratch.join("zip");
             std::fs::create_dir_all(&zip_dir).unwrap_or_else(|e| vkit::machinery!("mkdir: {e}"));
-            let mut cmd = std::process::Command::new("python3");
-            cmd.arg("-c").arg(ZIP_LIST).arg(&zip_path).arg(&zip_dir);
+            // unzip(1) verifies the CRCs, restores unix modes and re-creates symlinks
+            let mut cmd = std::process::Command::new("unzip");
+            cmd.arg("-q").arg(&zip_path).arg("-d").arg(&zip_dir);
             let o = git::run_cmd(cmd, None);
-            if !o.ok {
-                return bad("zip-unreadable", format!("python zipfile rejects the archive: {}", o.err_text()));
+            // exit code 1 = warnings only; an archive without any entry makes unzip complain ("zipfile is empty")
+            if !o.ok && !(expected.is_empty() && String::from_utf8_lossy(&o.stdout).contains("empty") || String::from_utf8_lossy(&o.stderr).contains("empty")) {
+                return bad("zip-unreadable", format!("unzip rejects the archive (code {:?}): {} {}", o.code, o.text(), o.err_text()));
             }
-            let listing: Vec<(String, u32, u64)> =
-                serde_json::from_slice(&o.stdout).unwrap_or_else(|e| vkit::machinery!("zip listing: {e}"));
-            let mut got: Listing = Vec::new();
-            let mut got_dirs = Vec::new();
-            for (name, mode, _size) in &listing {
-                if let Some(d) = name.strip_suffix('/') {
-                    got_dirs.push(d.to_string());
-                    continue;
-                }
-                let kind = if mode & 0o170000 == 0o120000 {
-                    "link"
-                } else if mode & 0o100 != 0 {
-                    "exe"
-                } else {
-                    "file"
-                };
-                let bytes = std::fs::read(zip_dir.join(name)).unwrap_or_else(|e| vkit::machinery!("read extracted {name}: {e}"));
-                got.push((name.clone(), kind, bytes));
-            }
-            got.sort();
+            let got = snapshot_files(&zip_dir);
             if got != want_listing {
                 return bad("zip-content", format!("zip holds [{}], expected [{}]", brief(&got), brief(&want_listing)));
             }
-            if c.extra == "dir" && !got_dirs.iter().any(|d| d == "extra-dir") {
+            if c.extra == "dir" && !zip_dir.join("extra-dir").is_dir() {
                 return bad("zip-content", "additional directory entry is missing in the zip");
             }
 
+            lap(5, &mut t0);
             if expected.iter().any(|e| e.2.len() >= 65534) {
                 big_streamed.fetch_add(1, Ordering::Relaxed);
             }
@@ -357,6 +422,10 @@ pub fn run(run: &'static Run) {
                 if c.extra != "none" { "/+extra" } else { "" }
             ))
         },
+    );
+    run.cov(
+        "stage_thread_ms[stream,tar,git-archive,compare,zip-write,unzip]",
+        stage_us.iter().map(|a| a.load(Ordering::Relaxed) / 1000).collect::<Vec<_>>(),
     );
     run.cov("cases_with_file_at_buffer_size", big_streamed.load(Ordering::Relaxed));
     run.cov("cases_with_gitlink", with_sub.load(Ordering::Relaxed));
